@@ -223,12 +223,24 @@ def replay_history(hist, ns, full_last=True, loaded=False):
         fs = F.new_set(ns)
         model = F.RefFilters()
     for i, ev in enumerate(hist):
+        before = F.render(fs) if i == len(hist) - 1 else None  # (every prefix is a history of its own: the last event is enough)
         r = apply(ev, fs, model, ns)
         if r is None:
             return ("skip", fs, model, i)
         (ik, iv), (mk, mv) = r
         bad = None
-        if ik != mk:
+        # (replace events that build their content through this very set add to its requires by construction: excluded)
+        if before is not None and (mk == "exc" or (ev[0] != "add" and mk == "ret" and mv is False)) and not (ev[0] == "replace" and ev[2][0] != "get"):
+            # the model says this call is refused (unknown name, name taken, move out of bounds): nothing at all may change
+            try:
+                after = F.render(fs)
+            except Exception as e:  # noqa
+                after = "%s: %s" % (type(e).__name__, e)
+            if after != before:
+                bad = ("refused-but-changed", "%r is refused (%s %r) but the set renders differently afterwards: %r -> %r" % (ev, mk, mv, before[:80], after[:80]))
+        if bad is not None:
+            pass
+        elif ik != mk:
             bad = ("outcome", "%r: implementation %s %r, model %s %r" % (ev, ik, iv, mk, mv))
         elif ik == "exc" and iv != mv:
             bad = ("outcome", "%r raised %s, model expects %s" % (ev, iv, mv))
